@@ -26,7 +26,7 @@ theorem extend_step {s : State} (hi : Inv s) (horph : s.orphans = []) {t : Block
   rw [hpb]
   rcases maybeAcceptBlock_spec hi hfresh (by rw [horph]; intro o ho; cases ho) with
       ⟨e, _, hno | ⟨q, hq, hne⟩⟩ |
-      ⟨q, tp, s0, s', res, hq, hqid, hqh, hqtd, he, hi0, hi', e1, e2, e3, e4, e5, e6, e7, hss, hout⟩
+      ⟨q, tp, s0, s', res, hq, hqid, hqh, hqtd, he, hi0, hi', e1, e2, e3, e4, e5, e6, e7, e8, hss, hout⟩
   · rw [hlk] at hno; cases hno
   · rw [hlk] at hq; cases hq; exact absurd hh hne
   · have hb' : s'.best = b :: s.best ∧ (res = .main) := by
